@@ -34,7 +34,7 @@ LEGAL_PREFIXES = ['', 'r', 'R', 'u', 'U']
 
 def run(ctx):
     for fn in (r1_failed_line_offset, r1_failed_lineno, r1_google_body_line, r1_freeform_regroup, r1_slice_example,
-               r1_overwrite_lineno, r1_docstring_start, r2_first_frame, r3_docstring_prefixes, r3_def_line_pattern, r4_freeform_offset, r5_exec_lines_are_physical_lines):
+               r1_overwrite_lineno, r1_docstring_start, r2_first_frame, r3_docstring_prefixes, r3b_trailing_comment_pattern, r3_def_line_pattern, r4_freeform_offset, r5_exec_lines_are_physical_lines):
         ctx.rep.rule(fn, ctx)
 
 
@@ -661,6 +661,43 @@ def r5_exec_lines_are_physical_lines(ctx):
                            'a part receives exactly its slice of the source lines' if ok else 'the executable lines handed to the part are not the plain slice of the chunk', anchor=fchunk.qualname)
 
 
+def r3b_trailing_comment_pattern(ctx):
+    """REGEX-FACT (finite samples on the folded pattern): the docstring locators decide "this line ends the triple-quoted literal" after cutting
+    a trailing comment.  The comment may follow the closing quotes directly (`"""# noqa`) or after blanks"""
+    import re as _re
+    from .common import fold_text
+    rep = ctx.rep
+    V = 'xdoctest.static_analysis.TopLevelVisitor'
+    n = 0
+    for name in ('_find_docstr_startpos_workaround', '_find_docstr_endpos_workaround'):
+        f = ctx.func(V + '.' + name)
+        for c in walk_scope(f.node):
+            if not (isinstance(c, ast.Call) and isinstance(c.func, ast.Attribute) and is_name(c.func.value, 're') and c.func.attr == 'sub' and len(c.args) >= 3):
+                continue
+            pexpr = c.args[0]
+            if isinstance(pexpr, ast.Name):
+                ds = [x for x in walk_scope(f.node) if isinstance(x, ast.Assign) and len(x.targets) == 1 and is_name(x.targets[0], pexpr.id)]
+                need(len(ds) == 1, 'C08.R3b: the comment pattern of %s has several definitions' % name)
+                pexpr = ds[0].value
+            n += 1
+            bad = []
+            for trip in ("'''", '"""'):
+                env = {x.id: trip for x in ast.walk(pexpr) if isinstance(x, ast.Name) and x.id != 're'}
+                env.update({x.id: trip for x in ast.walk(c.args[1]) if isinstance(x, ast.Name)})
+                pat = fold_text(ctx, f, pexpr, env)
+                repl = fold_text(ctx, f, c.args[1], env)
+                for text, want in (('    ' + trip + '  # a comment', trip), ('    ' + trip + '# noqa', trip), ('    ' + trip + '#:', trip), ('    ' + trip, trip),
+                                   ('    text' + trip, 'text' + trip), ('    ' + trip + ' + x', trip + ' + x')):
+                    got = _re.sub(pat, repl, text).strip()
+                    if got != want:
+                        bad.append((text, got))
+            rep.ob('C08.R3b', ctx.loc(f, c), ctx.src(c, 70), not bad,
+                   'a trailing comment is cut whether or not blanks separate it from the closing quotes (12 samples)' if not bad else
+                   'the trailing-comment pattern leaves %s: the closing line of such a docstring is not recognised, the docstring is taken for a one-liner and every line number '
+                   'of its doctests shifts to the last line' % bad, anchor=f.qualname)
+    rep.floor('C08.R3b', 'trailing-comment substitutions in the docstring locators', n, 2)
+
+
 # ---------------------------------------------------------------------------
 from ..selftest import fire, silent      # noqa: E402
 
@@ -669,6 +706,7 @@ SA = 'xdoctest/static_analysis.py'
 CO = 'xdoctest/core.py'
 PA = 'xdoctest/parser.py'
 VARIANTS = [
+    fire('trailing-comment-needs-a-blank', 'C08.R3b', ('xdoctest/static_analysis.py', "            pattern = re.escape(trip) + r'\\s*#.*$'\n", "            pattern = re.escape(trip) + r'\\s+#.*$'\n")),
     fire('single-mode-terminator-stored-in-exec-lines', 'C08.R5', ('xdoctest/parser.py', "        example = slice_example(s1, s2, want_lines)\n", "        example = slice_example(s1, s2, want_lines)\n        if mode_hint == 'single':\n            example.exec_lines = example.exec_lines + ['']\n")),
     fire('line-from-frame-f_lineno', 'C08.R2', ('xdoctest/doctest_example.py', "                            found_lineno = sub_tb.tb_lineno\n", "                            found_lineno = sub_tb.tb_frame.f_lineno\n")),
     fire('gotwant-offset-off-by-one', 'C08.R1', (DE, "                offset += self.failed_part.n_exec_lines + 1\n", "                offset += self.failed_part.n_exec_lines\n")),
